@@ -52,7 +52,7 @@ class SpecMixin:
             fr.locals = dict(self.old_locals)
             # names bound by enclosing quantifiers stay visible
             for k, v in cur_locals.items():
-                if k.startswith('_q_') or k in self.quant_vars:
+                if k.startswith('_q_') or k in self.quant_vars or (k not in self.old_locals and k not in ('result', 'exc')):
                     fr.locals[k] = v
             prev_in_old = self.in_old
             self.in_old = True
